@@ -1,0 +1,57 @@
+// Verification hooks: thin re-exports / wrappers of crate-private items.
+// Compiled only with `--cfg dropshot_verif`; never part of the public API.
+
+use std::collections::BTreeMap;
+
+pub use crate::extractor::body_verif_hooks::streaming_body_new;
+pub use crate::http_util::http_extract_path_params;
+pub use crate::pagination::verif_hooks::deserialize_page_token;
+pub use crate::pagination::verif_hooks::serialize_page_token;
+pub use crate::router::verif_hooks::input_path_to_segments;
+pub use crate::router::verif_hooks::route_path_to_segments;
+pub use crate::router::verif_hooks::PathSegment;
+pub use crate::router::verif_hooks::VariableSet;
+pub use crate::router::verif_hooks::VariableValue;
+pub use crate::type_util::type_is_scalar;
+pub use crate::type_util::type_is_string_enum;
+pub use crate::websocket::verif_hooks::derive_accept_key;
+
+pub fn versions_matches(
+    r: &crate::ApiEndpointVersions,
+    v: Option<&semver::Version>,
+) -> bool {
+    r.matches(v)
+}
+
+pub fn versions_overlaps_with(
+    a: &crate::ApiEndpointVersions,
+    b: &crate::ApiEndpointVersions,
+) -> bool {
+    a.overlaps_with(b)
+}
+
+pub fn j2oas_schema(
+    name: Option<&String>,
+    schema: &schemars::schema::Schema,
+) -> serde_json::Value {
+    serde_json::to_value(crate::schema_util::j2oas_schema(name, schema))
+        .expect("openapiv3 schema serializes")
+}
+
+pub fn from_map_vars<T: serde::de::DeserializeOwned>(
+    map: &BTreeMap<String, VariableValue>,
+) -> Result<T, String> {
+    crate::from_map::from_map(map)
+}
+
+pub fn from_map_strings<T: serde::de::DeserializeOwned>(
+    map: &BTreeMap<String, String>,
+) -> Result<T, String> {
+    crate::from_map::from_map(map)
+}
+
+pub fn to_map<T: serde::Serialize>(
+    input: &T,
+) -> Result<BTreeMap<String, String>, String> {
+    crate::to_map::to_map(input).map_err(|e| e.to_string())
+}
